@@ -278,6 +278,12 @@ func buildFolder(rng *common.Rng, swampPath string, maxFile int64, swampName str
 			if t.GetDeletedAt() != 0 && !t.GetShadowDelete() {
 				delete(b.fileOf, t.GetKey())
 			}
+			// a shadow-deleted treasure stays in its chunk; when the key is created again the swamp
+			// makes a new object without file pointer, so the new version is appended to the current
+			// chunk - often the very chunk that still holds the deletion-marked one
+			if t.GetDeletedAt() != 0 && t.GetShadowDelete() && rng.Chance(70) {
+				delete(b.fileOf, t.GetKey())
+			}
 		}
 		if rng.Chance(10) {
 			b.meta.SaveToFile()
@@ -454,11 +460,12 @@ const (
 	fForeignFile
 	fNoMeta
 	fCrossDup
+	fSameChunkDup
 	fRlimit
 	fKinds
 )
 
-var faultName = []string{"none", "preexisting_hyd_valid", "preexisting_hyd_torn", "preexisting_hyd_garbage", "preexisting_hyd_corrupt_block", "garbled_chunk", "truncated_chunk", "undecodable_segment", "non_v1_file_in_folder", "meta_missing", "key_in_two_chunks", "rlimit_fsize_during_v2_write"}
+var faultName = []string{"none", "preexisting_hyd_valid", "preexisting_hyd_torn", "preexisting_hyd_garbage", "preexisting_hyd_corrupt_block", "garbled_chunk", "truncated_chunk", "undecodable_segment", "non_v1_file_in_folder", "meta_missing", "key_in_two_chunks", "key_twice_in_one_chunk", "rlimit_fsize_during_v2_write"}
 
 type caseOut struct {
 	term       string
@@ -579,6 +586,29 @@ func runCase(rng *common.Rng, self, template, work string, dry, verify, del bool
 		os.WriteFile(filepath.Join(swampPath, "notes.txt"), []byte("not a chunk"), 0o644)
 	case fNoMeta:
 		os.Remove(filepath.Join(swampPath, metadata.MetaFile))
+	case fSameChunkDup:
+		// newer versions of keys appended to the chunk that already holds them (what re-creating a
+		// shadow-deleted key produces), written with the real V1 filesystem layer
+		if c := chunks(); len(c) > 0 {
+			p := c[rng.Intn(len(c))]
+			if segs, err := fsys.GetFile(p); err == nil && len(segs) > 0 {
+				var add [][]byte
+				for r := 0; r < 1+rng.Intn(3); r++ {
+					k, _, ok := canon(segs[rng.Intn(len(segs))])
+					if !ok {
+						continue
+					}
+					tr := treasure.New(nil)
+					gid := tr.StartTreasureGuard(false, guard.BodyAuthID)
+					tr.BodySetKey(gid, k)
+					tr.SetContentString(gid, fmt.Sprintf("newer version %d", r))
+					b, _ := tr.ConvertToByte(gid)
+					tr.ReleaseTreasureGuard(gid)
+					add = append(add, b)
+				}
+				fsys.SaveFile(p, add, true)
+			}
+		}
 	case fCrossDup:
 		// a second chunk file holding a key that already lives elsewhere (what a lost file pointer produces)
 		tr := treasure.New(nil)
@@ -694,7 +724,7 @@ func main() {
 	}
 	run := common.NewRun(a, "C23", "HV.Storage.C23Migrate")
 	run.Shard = 100
-	run.Meta.Rule = "case = one V1 folder written by the real V1 chronicler (random write/modify/real-delete/shadow-delete history, max file size 256 B / 4 KiB / 64 KiB, restarts; profiles: custom metadata making the meta file 4 KiB .. 300 KiB, swamp names of 300 / 5000 bytes, values up to 900 KiB, long / unicode / binary keys, hundreds of keys, all scalar content types, expiry, created-by) migrated by the real migrator with one flag combination and one fault kind, V1 Load before vs V2 chronicler Load after compared on keys, canonical gob values and stored name; non-trivial = the folder has >= 2 chunk files or a fault (pre-existing .hyd: valid, torn tail, corrupt block, garbage shorter or longer than a header; garbled/truncated chunk, undecodable segment, foreign file, missing meta, duplicate key across chunks, RLIMIT_FSIZE during the V2 write) was injected"
+	run.Meta.Rule = "case = one V1 folder written by the real V1 chronicler (random write/modify/real-delete/shadow-delete history, max file size 256 B / 4 KiB / 64 KiB, restarts; profiles: custom metadata making the meta file 4 KiB .. 300 KiB, swamp names of 300 / 5000 bytes, values up to 900 KiB, long / unicode / binary keys, hundreds of keys, all scalar content types, expiry, created-by) migrated by the real migrator with one flag combination and one fault kind, V1 Load before vs V2 chronicler Load after compared on keys, canonical gob values and stored name; non-trivial = the folder has >= 2 chunk files or a fault (pre-existing .hyd: valid, torn tail, corrupt block, garbage shorter or longer than a header; garbled/truncated chunk, undecodable segment, foreign file, missing meta, duplicate key across chunks, several versions of a key inside one chunk, RLIMIT_FSIZE during the V2 write) was injected"
 	rng := common.NewRng(a.Seed, "C23")
 	work, err := os.MkdirTemp("", "c23-")
 	if err != nil {
